@@ -264,7 +264,27 @@ pub fn run(tier: &str, seed: u64) -> Report {
         let s = rng.utf8(n);
         nondates.push(s);
     }
-    for (i, s) in nondates.into_iter().enumerate() {
+    // the fixed catalogue goes to all three constructors in both forms; random strings are spread over them
+    let fixed = 36.min(nondates.len());
+    for s in nondates.iter().take(fixed) {
+        for ctor in 0..3u8 {
+            for owned in [false, true] {
+                let e = if may_start_with_iso_date(s) { None } else { Some(false) };
+                cases.push(Case::Time { ctor, owned, text: s.clone(), expect_ok: e, class: if e.is_none() { "possibly-a-date (no verdict)".into() } else { "not-a-date".into() } });
+            }
+        }
+    }
+    // decorated strict renderings: acceptance is not decided (they still START with a date), but an accepted value must be kept verbatim
+    for deco in [" ", "\n", "\t", "\0", " trailing", "Z", "\u{a0}"] {
+        for ctor in 0..3u8 {
+            for owned in [false, true] {
+                let base = render(32_472_144_000, 0, 0, 0, Style::StrictZ);
+                cases.push(Case::Time { ctor, owned, text: format!("{}{}", base, deco), expect_ok: None, class: "date+trailing-decoration (verbatim-or-refused)".into() });
+                cases.push(Case::Time { ctor, owned, text: format!("{}{}", deco, base), expect_ok: if may_start_with_iso_date(&format!("{}{}", deco, base)) { None } else { Some(false) }, class: "leading-decoration+date".into() });
+            }
+        }
+    }
+    for (i, s) in nondates.into_iter().enumerate().skip(fixed) {
         if may_start_with_iso_date(&s) {
             cases.push(Case::Time { ctor: (i % 3) as u8, owned: i % 2 == 0, text: s, expect_ok: None, class: "possibly-a-date (no verdict)".into() });
         } else {
